@@ -126,6 +126,7 @@ class QuantMixin:
         et = self.seq_elem_type.get(smt.simp(s).get_id())
         if et is not None:
             self._add_axiom(z3.Implies(z3.And(t >= 0, t < z3.Length(s)), self.type_formula(v, et)))
+            self.note_elem_cls(v, et)
         k0 = self._seq_key(s)
         for k in self._closure(k0):
             for f in list(self.q_facts.get(k, [])):
@@ -146,11 +147,22 @@ class QuantMixin:
                     self._add_axiom(z3.Implies(z3.And(ti >= 0, ti < z3.Length(part)), smt.elem_at(s, t) == pv))
                 off = smt.simp(off + z3.Length(part))
 
+    MAX_INST_DEPTH = 4
+
     def _inst(self, f: QFact, t) -> None:
         if t.get_id() in f.done:
             return
+        # nested quantifiers (forall-exists) create a new witness index per instance, which would trigger the enclosing
+        # universal fact again, and so on: instantiation chains are cut at a fixed depth (sound: fewer facts)
+        d = getattr(self, '_inst_depth', 0)
+        if d >= self.MAX_INST_DEPTH:
+            return
         f.done.add(t.get_id())
-        f.inst(t)
+        self._inst_depth = d + 1
+        try:
+            f.inst(t)
+        finally:
+            self._inst_depth = d
 
     def add_qfact(self, s, name: str, inst: Callable[[Any], None]) -> QFact:
         f = QFact(name, inst)
@@ -169,7 +181,20 @@ class QuantMixin:
         et = self.seq_elem_type.get(smt.simp(s).get_id())
         if et is not None:
             self._add_axiom(z3.Implies(z3.And(t >= 0, t < z3.Length(s)), self.type_formula(v, et)))
+            self.note_elem_cls(v, et)
         return v
+
+    def note_elem_cls(self, v, et: str) -> None:
+        """class hint of an element of a typed sequence: unlike hints learnt from the guards of one sub-path it stays
+        valid wherever the element term is met again (later instances of quantified facts)"""
+        if '|' in et or et.startswith(('opt:', 'seq[', 'type<=', 'oneof:')) or et in ('any', 'json', 'str', 'int', 'bool',
+                                                                                   'none', 'number', 'encodable'):
+            return
+        try:
+            K = self.resolve_class(et.lstrip('='))
+        except Exception:
+            return
+        self.elem_cls.setdefault(smt.simp(v).get_id(), K)
 
     def nth(self, s, t):
         """element read as a term: concrete positions of concrete sequences simplify to the element; otherwise the
@@ -450,6 +475,9 @@ class QuantMixin:
             return self.mk_list(out) if kind == 'list' else self.mk_tuple(out)
         sv = self.to_seq_val(itv, gen.iter)
         S = self.get_seq(sv)
+        h = getattr(self, 'comp_hook', None)
+        if h is not None and not fr.is_spec:
+            h(e, fr, S)
         if gen.ifs:
             return self.filter_comprehension(e, fr, kind, S)
         return self.map_comprehension(e, fr, kind, S)
